@@ -309,6 +309,8 @@ impl EnumDef {
 #[derive(Clone, Debug, PartialEq, Eq, Hash)]
 pub struct StructDef {
     pub repr_c: bool,
+    /// `#[repr(align(N))]` (over-alignment: the struct may be larger than its fields)
+    pub align: Option<u32>,
     pub style: Style,
     pub fields: Vec<Field>,
 }
@@ -599,8 +601,9 @@ fn describe_field(f: &Field) -> String {
 pub fn describe_def(d: &Def) -> String {
     match &d.kind {
         DefKind::Struct(s) => format!(
-            "{}struct {}{{{}}}",
+            "{}{}struct {}{{{}}}",
             if s.repr_c { "repr(C) " } else { "" },
+            s.align.map(|a| format!("align({}) ", a)).unwrap_or_default(),
             d.name,
             s.fields.iter().map(describe_field).collect::<Vec<_>>().join(", ")
         ),
